@@ -1,6 +1,6 @@
 CONSTANTS
-  MaxItems = 100
-  MaxChunks = 12
+  MaxItems = 120
+  MaxChunks = 16
   MaxG = 4
 INIT Init
 NEXT Next
